@@ -229,6 +229,13 @@ impl CommitOracle {
 		}
 	}
 
+	/// Verification hook: makes the commit-count throttle of the next `publish`
+	/// pass, so that GC placements are reachable without `GC_INTERVAL` commits.
+	#[cfg(surrealkv_verif)]
+	pub(crate) fn verif_force_gc_next(&self) {
+		self.inner.lock().commits_since_gc = GC_INTERVAL;
+	}
+
 	#[cfg(test)]
 	pub(crate) fn len(&self) -> usize {
 		self.inner.lock().recent_writes.len()
